@@ -63,7 +63,7 @@ def _read_cells(ctx, ignore):
     book = _Book({
         'S1': _Sheet({(1, 1): _ocell('A1', 'n', 5), (1, 2): _ocell('B1', 'f', '=A1*2', 10), (2, 1): _ocell('A2', 's', 'txt')}),
         'Ign': _Sheet({(1, 1): _ocell('A1', 'n', 1), (1, 2): _ocell('B1', 'f', '=A1+1', 2)}),
-        'My Sheet': _Sheet({(1, 1): _ocell('A1', 'b', True)}),
+        'My Sheet': _Sheet({(1, 1): _ocell('A1', 'b', True), (1, 2): _ocell('B1', 'f', '=A1*2', 4)}),
     }, {})
     env = {p[0]: Rec(book=book), p[1]: list(ignore)}
     if len(p) > 2:
@@ -74,7 +74,7 @@ def _read_cells(ctx, ignore):
 
 
 def rule_1(ctx):
-    for ignore, want in ((['Ign'], {'S1!A1', 'S1!B1', 'S1!A2', 'My Sheet!A1'}), ([], {'S1!A1', 'S1!B1', 'S1!A2', 'Ign!A1', 'Ign!B1', 'My Sheet!A1'}),
+    for ignore, want in ((['Ign'], {'S1!A1', 'S1!B1', 'S1!A2', 'My Sheet!A1', 'My Sheet!B1'}), ([], {'S1!A1', 'S1!B1', 'S1!A2', 'Ign!A1', 'Ign!B1', 'My Sheet!A1', 'My Sheet!B1'}),
                          (['Ign', 'My Sheet'], {'S1!A1', 'S1!B1', 'S1!A2'}), (['S1', 'Ign', 'My Sheet'], set())):
         try:
             rc, out = _read_cells(ctx, ignore)
@@ -172,6 +172,17 @@ def rule_3(ctx):
                'the formula object of a formula cell is not built from its formula text and the sheet of the cell')
     ctx.expect(formulae.get('S1!B1') is fo, rc, 'formulae map receives the formula under the cell address',
                'formulae[addr] is not the formula object stored in the cell')
+    # the same formula text on another sheet: a formula object of its own, bound to ITS sheet
+    m1 = cells.get('My Sheet!B1')
+    fo2 = field(m1, 'formula', 2) if isinstance(m1, Rec) else None
+    ok = isinstance(fo2, Rec) and fo2 is not fo and field(fo2, 'formula', 0) == '=A1*2' and field(fo2, 'sheet_name', 1) == 'My Sheet'
+    ctx.expect(ok, rc, 'the same formula text on two sheets gives two formulas, each bound to its own sheet',
+               f'the cell My Sheet!B1 (formula =A1*2, the text S1!B1 also has) gets the formula object '
+               f'{"of S1!B1" if fo2 is fo else repr(fo2)[:120]}: its unqualified references/ranges belong to the other sheet '
+               '(=SUM(A1:B3) repeated on every sheet evaluates to 0 from the second sheet on)')
+    if isinstance(fo2, Rec) and 'terms' in fo2.f:
+        ctx.expect(fo2.f['terms'] == ['My Sheet!A1'], rc, 'terms of a formula are qualified with the sheet of its own cell',
+                   f'the formula of My Sheet!B1 has the terms {fo2.f["terms"]!r}, expected ["My Sheet!A1"]')
     ctx.expect(field(a1, 'value', 1) == 5 and field(a1, 'formula', 2) is None and field(a2, 'value', 1) == 'txt', rc,
                'constant cell: value, no formula', 'a constant cell does not store its value with no formula')
     ctx.expect(isinstance(ranges, dict), rc, 'read_cells returns [cells, formulae, ranges]', 'read_cells returns its maps in another order')
